@@ -94,6 +94,11 @@ pub fn run(cfg: &Cfg) {
         let back: PublicKey = serde_json::from_value(j.clone()).unwrap();
         sink.oracle(keyid_hex(&back) == id && back == *p, "key id or key changes in a JSON round trip", &replay);
         sink.oracle(j["keyid"].as_str() == Some(id.as_str()), "serialised keyid member differs from the key id", &replay);
+        // the same key in the spellings its type does not use, under every type / scheme name and with
+        // other hash-algorithm lists: accepted or not, and with which id, as Model/KeyJson.lean says
+        for v in crate::c16_doc::respelled_keys(p) {
+            crate::c16_doc::key_case(&mut sink, &v, "respelled");
+        }
         // SPKI export / import
         let spki = p.as_spki().unwrap();
         match PublicKey::from_spki(&spki, p.scheme().clone()) {
